@@ -55,13 +55,18 @@ def main(argv=None) -> int:
     t0 = _perf()
     selftest.run_quick()
 
-    jobs = mod.jobs(tier)
-    # the seed rotates the partition order only; it never changes what is enumerated
-    if jobs:
-        r = seed % len(jobs)
-        jobs = jobs[r:] + jobs[:r]
-    results = explore.pmap(mod.__name__, "run_job", jobs)
-    acc = explore.Acc.merge(results)
+    if hasattr(mod, "drive"):
+        # level-synchronous searches drive their own fan-out
+        jobs = []
+        acc = mod.drive(tier, seed)
+    else:
+        jobs = mod.jobs(tier)
+        # the seed rotates the partition order only; it never changes what is enumerated
+        if jobs:
+            r = seed % len(jobs)
+            jobs = jobs[r:] + jobs[:r]
+        results = explore.pmap(mod.__name__, "run_job", jobs)
+        acc = explore.Acc.merge(results)
 
     known = [k for k in load_findings() if k.get("property") == pid]
     by_sig: dict[str, list] = {}
